@@ -55,6 +55,15 @@ impl Ctx {
     /// run one protocol operation against the implementation; the op line is on disk
     /// *before* the call so that a crash/hang is attributable to it
     pub fn op(&mut self, line: &str) -> String {
+        // stage-level operations call `pub #[doc(hidden)]` functions of the parser; when the crate no longer exports
+        // them the harness is built without the feature `hidden_api` and these operations are not issued at all
+        if !cfg!(feature = "hidden_api") {
+            let w = line.split(' ').next().unwrap_or("");
+            if matches!(w, "lexd" | "lexc" | "conv" | "ast" | "fold") {
+                *self.stats.entry("hidden_api_ops_skipped".to_string()).or_insert(0) += 1;
+                return "skipped".to_string();
+            }
+        }
         self.ops.write_all(line.as_bytes()).unwrap();
         self.ops.write_all(b"\n").unwrap();
         let r = match std::panic::catch_unwind(|| crate::ops::exec(line)) {
